@@ -173,6 +173,10 @@ class DiameterAssociation(object):
         self.transport.close()
         self.transport = None
 
+        #: Whoever is blocked waiting for a message must notice the end of
+        #: the connection.
+        self.postprocess_recv_messages_ready.set()
+
 
     def recv_message_from_queue(self) -> None:
         while not self._stop_threads and self.transport:
@@ -318,15 +322,24 @@ class DiameterAssociation(object):
         self.lock.acquire()
         diameter_conn_logger.debug("Acquired DiameterAssociation lock")
 
+        #: Never blocks while holding the locks: another consumer may have 
+        #: taken the message, or the wake-up may come from a closing 
+        #: connection. The go ahead is withdrawn, under the same lock which 
+        #: protects its setting, only when nothing is left to be consumed.
         self.postprocess_recv_messages_lock.acquire()
-        msg = self.postprocess_recv_messages.get()
+        try:
+            msg = self.postprocess_recv_messages.get_nowait()
+        except queue.Empty:
+            msg = None
+
+        if self.postprocess_recv_messages.empty() and not self._stop_threads:
+            self.postprocess_recv_messages_ready.clear()
+            diameter_conn_logger.debug("Cleared go ahead for "\
+                                       "postprocess_recv_messages_ready")
         self.postprocess_recv_messages_lock.release()
 
-        make_logging(msg)
-
-        self.postprocess_recv_messages_ready.clear()
-        diameter_conn_logger.debug("Cleared go ahead for "\
-                                   "postprocess_recv_messages_ready")
+        if msg is not None:
+            make_logging(msg)
 
         self.lock.release()
         diameter_conn_logger.debug("Released DiameterAssociation lock")
@@ -343,7 +356,9 @@ class DiameterAssociation(object):
                 diameter_conn_logger.debug("No need to wait for go ahead for "\
                                            "postprocess_recv_messages_ready")
     
-            return self.get_postprocess_recv_message()
+            msg = self.get_postprocess_recv_message()
+            if msg is not None:
+                return msg
 
 
     def tracking_events(self) -> None:
